@@ -149,7 +149,8 @@ def model(problems=None):
 
     def key_sig(cp):
         ch = chr(cp)
-        return tuple(tuple(lists[s].get(ch, ())) for s in ("L", "D"))
+        sig = tuple(tuple(lists[s].get(ch, ())) for s in ("L", "D"))
+        return sig if any(sig) else None
 
     part, dfas = R.compile_patterns(comp_rx, singletons=[R.NL] + first_keys, extra_key=key_sig)
     J = R.Joint(part, comp_names, dfas)
